@@ -45,11 +45,53 @@ SUMMARY = {
  "c19a/1": ("C19", "lp.Convert copies the equality right-hand side to bNew[nEq:] instead of bNew[nIneq:]", "a general-form LP with equality constraints and nIneq != nEq"),
  "c19a/2": ("C19", "minimize assigns finalStatus/finalError before the select on done, so shutdown tasks overwrite the first status", "a global method and a second limit or Recorder error reached during shutdown"),
  "c19a/3": ("C19", "Bisection.nextStep termination test rewritten to minStep == maxStep || IsInf(step)", "an objective returning +Inf so that the bracket collapses to adjacent floats"),
+ "c01b/1": ("C01", "internal/asm/f64/ge_noasm.go GemvT: start offset n*i passed to AxpyInc instead of slicing a[lda*i:]", "noasm/safe build (or non-amd64), Trans, lda > n, m > 1, non-unit increment"),
+ "c01b/2": ("C01", "blas64.Gemm derives m,n,k with tA == blas.Trans, so ConjTrans is treated as NoTrans", "tA or tB == blas.ConjTrans with a non-square operand"),
+ "c01b/3": ("C01", "sgemmParallel (generated file only): leni/lenj hoisted out of the worker closure and shared by all workers", "float32 Gemm above the parallel threshold with a clipped edge block"),
+ "c02b/1": ("C02", "Dlarfg rescaling loop calls Dscal(n-1, rsafmn, x, 1) instead of incX", "|beta| < safmin (tiny input) and incX > 1"),
+ "c02b/2": ("C02", "Dgeqp3 ignores the column count returned by Dlaqps and advances by the requested panel width", "blocked path (min(m,n) large) with a panel that Dlaqps stops early"),
+ "c02b/3": ("C02", "Dpttrf unrolled loop tests d[i+1] <= 0 instead of d[i+2] in its third lane", "a non-positive pivot first appearing in lane 3 of the 4-way unrolled loop"),
+ "c03b/1": ("C03", "Dgesvd path with insufficient-fast workspace: Dgemm reads work[iu:] with leading dimension m instead of ldworku", "wide matrix, jobVT=All path, lwork large enough that ldworku > m"),
+ "c03b/2": ("C03", "Dsteqr rescales d[lsv:] with lendsv-lsv elements instead of lendsv-lsv+1 after a scaled QL sweep", "a block whose norm exceeds ssfmax/ssfmin so that scaling is undone"),
+ "c03b/3": ("C03", "Dtrexc backward sweep: a failed Dlaexc swap breaks out of the loop instead of returning ok=false", "a 2x2 block swap that Dlaexc rejects as too ill-conditioned"),
+ "c04b/1": ("C04", "Dense.Mul matrix x column-vector arm builds the result vector with Inc 1 instead of the receiver's Stride", "receiver a column view (Stride > 1) of a larger matrix"),
+ "c04b/2": ("C04", "CDense.reuseAsNonZeroed shape test || became &&", "a non-empty CDense receiver with exactly one mismatched dimension"),
+ "c04b/3": ("C04", "SymBandDense.at (bounds build) returns 0 for pj == K instead of only beyond the band", "-tags bounds, an element on the outermost band"),
+ "c05b/1": ("C05", "offset_appengine.go sizeOfComplex128 computed from complex64(0)", "-tags safe and CDense views of one backing array"),
+ "c05b/2": ("C05", "checkOverlap passes a.Stride instead of min(a.Stride, b.Stride) to rectanglesOverlap", "operands of different strides (a strided receiver against a unit-stride vector)"),
+ "c05b/3": ("C05", "VecDense.SubVec merges the two identity guards into `v != a && v != b`, skipping the other operand's overlap check", "receiver identical to one operand, the other a shifted window of the same backing"),
+ "c06b/1": ("C06", "QR.factorize resets the cached Q only when the row count changed", "re-factorizing a QR value with a matrix of the same shape after QTo/SolveTo built Q"),
+ "c06b/2": ("C06", "Cholesky.ExtendVecSym detects failure by NaN of sqrt(k - dot) instead of dot >= k", "an extension that makes the matrix exactly singular (k == dot)"),
+ "c06b/3": ("C06", "LU.UTo indexes dst with the factor's stride (lum.Stride) instead of dst's own", "a destination TriDense whose stride differs from the factor's (a view or reused larger backing)"),
+ "c07b/1": ("C07", "Cher2 (generated file only): negative-increment length check of y written with incX", "complex64, incY < 0, |incX| != |incY|, a y that is too short"),
+ "c07b/2": ("C07", "Dgetri checks len(ipiv) only after inv(U) has been formed", "a wrong-length ipiv: the panic arrives after a was overwritten"),
+ "c07b/3": ("C07", "axpyunitary_amd64.s tail_one loads x[i] with MOVUPS (16 bytes)", "odd length n with x ending at the end of a mapped page (reads one element past the slice)"),
+ "c08b/1": ("C08", "floats.Within replaced by sort.SearchFloat64s bisection", "a sorted slice with repeated values"),
+ "c08b/2": ("C08", "internal/asm/f32/ge_noasm.go Ger: negative-increment start of x computed from n-1 instead of m-1", "noasm/safe build, float32, incX < 0, m != n"),
+ "c08b/3": ("C08", "c128.L2DistanceUnitary loses its `if math.IsInf(scale, 1) return +Inf` guard", "a difference with an infinite component (result NaN instead of +Inf)"),
+ "c09b/1": ("C09", "sgemmParallel calls wg.Add(1) inside each worker goroutine instead of wg.Add(parBlocks) before the loop", "float32 Gemm above the parallel threshold (>= 4 blocks of C)"),
+ "c09b/2": ("C09", "Wishart.setV drops sync.Once for an `if w.v != nil` check", "first MeanSymTo calls on a shared *Wishart made concurrently"),
+ "c09b/3": ("C09", "optimize.minimize hoists the evaluation buffer x out of the worker closure, sharing it among all workers", "Settings.Concurrent >= 2 with overlapping evaluations"),
+ "c12b/1": ("C12", "multi.WeightedDirectedGraph.RemoveLine prunes g.to[fid][tid] instead of g.to[tid][fid]", "removing the last line between two nodes of a weighted directed multigraph"),
+ "c12b/2": ("C12", "iterator.WeightedLines.WeightedLineSlice (safe build) sets pos = len(lines) instead of l.len", "-tags safe, WeightedLineSlice after a partial iteration"),
+ "c12b/3": ("C12", "simple.UndirectedGraph.SetEdge stores new endpoint nodes without AddNode, so their IDs are not marked used", "SetEdge with nodes not yet in the graph followed by NewNode"),
+ "c16b/1": ("C16", "dot encoder's numeral regexp accepts an exponent suffix, leaving IDs like 1e5 unquoted", "node IDs or attribute values shaped like floats with an exponent"),
+ "c16b/2": ("C16", "Dense.UnmarshalBinary[From] lose the pre-multiplication guard rows > maxLen/cols", "a corrupted header whose rows*cols wraps to a small positive value"),
+ "c16b/3": ("C16", "HyperLogLog32/64.UnmarshalBinary validate a local p and never store it into h.p", "decoding into a receiver of a different precision, then Write/Union/MarshalBinary"),
+ "c17b/1": ("C17", "fftpack twoArray.add (bounds build only) assigns instead of accumulating", "-tags bounds"),
+ "c17b/2": ("C17", "Tukey taper width int(0.5*alphaL)+1 became int(0.5*alphaL+0.5) in both the real and complex windows", "alpha*(N-1)/2 with fractional part below 0.5"),
+ "c17b/3": ("C17", "CoefficientsRadix2 n=2 butterfly made sequential: x[1] computed from the already updated x[0]", "exactly length 2"),
+ "c18b/1": ("C18", "interp fritschButlandEdgeDerivative right edge: h = xM - xI instead of xE - xI", "FritschButland with at least 3 points and non-uniform spacing at the right edge"),
+ "c18b/2": ("C18", "fd.Gradient concurrent path scales by 1/formula.Step instead of the resolved step", "Concurrent gradient with settings.Step different from the formula's default"),
+ "c18b/3": ("C18", "hyperdual.Atanh mixed term uses deriv1 instead of deriv for the E1E2 coefficient", "a hyperdual argument with non-zero E1E2mag"),
+ "c19b/1": ("C19", "GuessAndCheck.Init resets bestF/bestX only when the dimension changed", "re-using one GuessAndCheck value for a second Minimize run of the same dimension"),
+ "c19b/2": ("C19", "lp.Convert copies the equality right-hand side to bNew[nEq:] instead of bNew[nIneq:]", "a general-form LP whose inequality and equality counts differ"),
+ "c19b/3": ("C19", "LinesearchMethod.initNextLinesearch accepts projGrad == 0 as a descent direction", "a direction orthogonal to the gradient (zero projected gradient)"),
 }
 results = {}
 for f in sys.argv[1:]:
     for line in open(f):
-        m = re.match(r"SEEDCHECK patch=/tmp/wt/(c\d\da)/_out/(\d)/patch.diff tier=(\w+) caught_by:(.*)", line)
+        m = re.match(r"SEEDCHECK patch=/tmp/wt/(c\d\d[ab])/_out/(\d)/patch.diff tier=(\w+) caught_by:(.*)", line)
         if m:
             results[f"{m.group(1)}/{m.group(2)}"] = m.group(4).split()
 for key, (prop, what, needs) in sorted(SUMMARY.items()):
